@@ -209,6 +209,21 @@ Theorem c07_av2rtmp_adts_small_pinned_refuted :
 Proof. exact adts_small_pinned_refuted. Qed.
 Print Assumptions c07_av2rtmp_adts_small_pinned_refuted.
 
+(* KNOWN FINDING C07-KF-MULTI-PPS (open): the remuxer keeps ONE sps and ONE pps and clears them when a
+   header has been emitted.  An access unit SPS, PPS(id 0), PPS(id 1), IDR: the sequence header carries the
+   first PPS only; the second one stays buffered and reaches no consumer (a later slice that refers to it
+   cannot be decoded).  The theorems above are about what is delivered; they do not promise that every
+   parameter set of the publisher is in some sequence header - this witness shows it is false. *)
+Definition ex_pps2 : bytes := [104; 238; 60; 128].
+Theorem c07_av2rtmp_second_pps_refuted :
+  let sps := [103; 66; 0; 30; 171; 64; 80; 30; 200] in let pps := [104; 206; 56; 128] in let idr := [101; 136; 128; 16] in
+  exists st' h,
+    feed_av_packet true (set_meta rs_new) (mk_av pt_avc 0 (join_nalu_avcc [sps; pps; ex_pps2; idr]))
+      = Ok (st', [RAv false 0 h; RAv false 0 (23 :: 1 :: 0 :: 0 :: 0 :: join_nalu_avcc [idr])]) /\
+    avc_parse_seq_header h = Ok (sps, pps) /\ rs_pps st' = ex_pps2.
+Proof. eexists _, _. vm_compute. split; [reflexivity|]. split; reflexivity. Qed.
+Print Assumptions c07_av2rtmp_second_pps_refuted.
+
 (* ======================================================================== *)
 (* (4) reordering: arrival perturbations inside the window do not change the
    result.  c12_reorder_video instantiated and composed with the remuxer: the
@@ -456,6 +471,18 @@ Theorem c07_ps_stream : forall chunks els st k' evs,
               RemuxPsStreamProofs.core_of st' = k' /\ RemuxPsStreamProofs.same_queue st st'.
 Proof. exact RemuxPsStreamProofs.chunked_stream. Qed.
 Print Assumptions c07_ps_stream.
+
+(* KNOWN FINDING C07-KF-PS-LAST-FRAME (open): a frame is handed out only when a PES packet with another
+   PTS arrives.  A stream that ends (program end code included) after its last frame leaves that frame in
+   the unpacker: here one video frame was muxed, none was delivered, the frame sits in the buffer. *)
+Theorem c07_ps_last_frame_refuted :
+  let frame := [0; 0; 0; 1; 103; 66; 0; 30; 0; 0; 0; 1; 104; 206; 0; 0; 0; 1; 101; 136; 128] in
+  let els := [RemuxPsStreamProofs.EPsm 224 255 [] [(27, 224, [])] [69; 189; 220; 244];
+              RemuxPsStreamProofs.EPes true (Some 9000) frame; RemuxPsStreamProofs.EEnd] in
+  exists k', RemuxPsStreamProofs.arun (RemuxPsStreamProofs.core_of NetPs.ps_init) els = Ok (k', []) /\
+             RemuxPsStreamProofs.k_vbuf k' = frame.
+Proof. eexists. vm_compute. split; reflexivity. Qed.
+Print Assumptions c07_ps_last_frame_refuted.
 
 (* the two facts it rests on: a complete element at the head of the buffer is consumed in one
    iteration with the effect [astep] describes, whatever follows it; a proper prefix of an element
